@@ -130,7 +130,7 @@ def bad1(a: INT64, n: INT64) -> INT64:
 from onnxscript import script, INT64, values
 from onnxscript import opset18 as op
 from onnxscript import opset17 as op17
-other = values.Opset("c14.other", 3)
+other = values.Opset("c14.custom", 3)       # another VERSION of the domain the glob script uses
 
 @script(other)
 def bad2(a: INT64) -> INT64:
@@ -144,7 +144,7 @@ def bad2(a: INT64) -> INT64:
 OPS = [
     "TrCtl", "TrGlob", "TrBad1", "TrBad2", "ProtoGlob", "MutGlob",
     "OptA", "OptB", "OptRaise", "RwX", "RwY", "RwCheckRaise", "RwRewriteRaise",
-    "FoldA", "FoldRaise", "PatOk", "PatFree", "PatRaiseDefault", "PatRaiseCustom", "PmMatch",
+    "FoldA", "FoldNoop", "FoldRaise", "PatOk", "PatFree", "PatRaiseDefault", "PatRaiseCustom", "PmMatch",
     "ConvA", "ConvRaise", "ModBuild", "EvRaise",
 ]
 
@@ -160,6 +160,7 @@ class _Proc:
         self.base_opsets = None
         self.base_types = None
         self.events = None      # list when instrumented
+        self.flags = {}
         self.tracked = {}       # rule name -> rule instance (class-based rules with per-match fields)
         self.scan0 = None
 
@@ -413,6 +414,13 @@ def model_fold(poison=False):
                 _init("c2", np.array(2.0, np.float32)), _init("c3", np.array(3.0, np.float32))])
 
 
+def model_noop():
+    """nothing to fold, unnamed nodes: FoldConstantsPass must leave it alone (no NameFixPass) - unless _modified is stale"""
+    from onnx import helper as oh
+
+    return _mk([oh.make_node("Add", ["x", "x"], ["t"]), oh.make_node("Relu", ["t"], ["o"])], [_vi("x", ["N", 3])], [_vi("o", ["N", 3])])
+
+
 def model_muladd():
     from onnx import helper as oh
 
@@ -572,16 +580,28 @@ def _listset_sites(P, graph):
                     _listset_sites(P, a.as_graph())
 
 
+def _protos(P, fn):
+    """to_function_proto / to_model_proto called repeatedly: identical results, function untouched"""
+    f0 = _ser(fn.to_function_proto())
+    p1 = _ser(fn.to_model_proto())
+    p2 = _ser(fn.to_model_proto())
+    f1 = _ser(fn.to_function_proto())
+    p3 = _ser(fn.to_model_proto())
+    if not (p1 == p2 == p3 and f0 == f1):
+        P.flags["not_idempotent"] = f"{fn.name}: model protos {_sha(p1)},{_sha(p2)},{_sha(p3)} function protos {_sha(f0)},{_sha(f1)}"
+    return p1 + b"|" + f0
+
+
 def op_TrCtl(P):
     m = _load_script(P, "c14s_ctl")
     if P.events is not None:
         _listset_sites(P, m.ctl.function_ir.graph)
-    return _ser(m.ctl.to_model_proto()) + b"|" + _ser(m.ctl.to_function_proto())
+    return _protos(P, m.ctl)
 
 
 def op_TrGlob(P):
     m = _load_script(P, "c14s_glob")
-    return _ser(m.glob.to_model_proto()) + b"|" + _ser(m.glob.to_function_proto()) + b"|" + _ser(m.sub.to_function_proto())
+    return _protos(P, m.glob) + b"|" + _ser(m.sub.to_function_proto())
 
 
 def op_TrBad1(P):
@@ -603,17 +623,9 @@ def _glob(P):
 def op_ProtoGlob(P):
     m = _glob(P)
     _ev(P, "ensured")
-    f0 = _ser(m.glob.to_function_proto())
-    p1 = _ser(m.glob.to_model_proto())
-    _ev(P, "toproto", "glob")
-    p2 = _ser(m.glob.to_model_proto())
-    f1 = _ser(m.glob.to_function_proto())
-    _ev(P, "toproto", "glob")
-    p3 = _ser(m.glob.to_model_proto())
-    s1 = _ser(m.sub.to_function_proto())
-    _ev(P, "toproto", "glob")
-    idem = p1 == p2 == p3 and f0 == f1
-    return p1 + b"|" + f0 + b"|" + s1 + (b"|idempotent" if idem else b"|NOT-IDEMPOTENT:" + _sha(p2).encode() + _sha(p3).encode() + _sha(f1).encode())
+    for _ in range(3):
+        _ev(P, "toproto", "glob")
+    return _protos(P, m.glob) + b"|" + _ser(m.sub.to_function_proto())
 
 
 def op_MutGlob(P):
@@ -677,6 +689,10 @@ def _fold(P, model):
 
 def op_FoldA(P):
     return _fold(P, model_fold())
+
+
+def op_FoldNoop(P):
+    return _fold(P, model_noop())
 
 
 def op_FoldRaise(P):
@@ -1062,6 +1078,7 @@ def run_history(P: _Proc, hist, keep_dir=None) -> list:
         if P.events is not None:
             del P.events[:]
         rec = {"op": opname}
+        P.flags = {}
         try:
             b = globals()["op_" + opname](P)
             rec["r"] = _sha(b)
@@ -1072,6 +1089,8 @@ def run_history(P: _Proc, hist, keep_dir=None) -> list:
             rec["r"] = "raise:" + type(e).__name__
             rec["msg"] = str(e)[:160]
             _ev(P, "raise", type(e).__name__)
+        if P.flags:
+            rec["flags"] = dict(P.flags)
         rec["snap"] = snapshot(P)
         if P.events is not None:
             rec["events"] = [list(e) for e in P.events]
@@ -1326,8 +1345,9 @@ def run(ctx: core.Ctx):
     def design_runs(cfgs):
         return [(cfg, core.run_tlc("History", cfg, timeout=1500, workers=4 if ctx.quick else 8)) for cfg in cfgs]
 
-    design_cfgs = [["History_design.cfg" if ctx.quick else "History_design_thorough.cfg", "History_vacuity.cfg"],
-                   ["History_design3.cfg", "History_vacuity_seed.cfg"], ["History_impl.cfg"]]
+    design_cfgs = [["History_design.cfg", "History_vacuity.cfg"], ["History_impl.cfg", "History_vacuity_seed.cfg"]]
+    if not ctx.quick:
+        design_cfgs += [["History_design_thorough.cfg"], ["History_design3.cfg"]]
 
     def solo_fresh(arg):
         seed, op = arg
@@ -1345,6 +1365,7 @@ def run(ctx: core.Ctx):
         f_fresh = list(ex.map(solo_fresh, fresh_jobs))
         recorded = f_rec.result()
         designs = [x for f in f_design for x in f.result()]
+    phases = {"fresh+design": round(time.time() - t0, 1)}
     for cfg, res in designs:
         ctx.tlc(res, cfg)
         if (cfg.startswith("History_design") or cfg == "History_impl.cfg") and not res.ok:
@@ -1391,7 +1412,9 @@ def run(ctx: core.Ctx):
         cfg, sim, depth = r
         return tlc_cases(ctx, cfg, cfg, catfile, simulate=sim, depth=depth, workers=("auto" if not ctx.quick else 6))
 
+    t1 = time.time()
     tl = _threads(do_tlc, runs, 3 if ctx.quick else 1)
+    phases["tlc_recorded"] = round(time.time() - t1, 1)
     cases_by = {}
     for (cfg, sim, _), (res, cases) in zip(runs, tl):
         ctx.tlc(res, cfg + (" (simulate)" if sim else ""))
@@ -1421,7 +1444,7 @@ def run(ctx: core.Ctx):
 
     selected = []
     pairs = cases_by["History_pairs.cfg"]
-    selected += [(c, "all") if (flows(c) or dev(c)) else (c, "one") for c in pairs]
+    selected += [(c, "all" if dev(c) or not ctx.quick else "two") if (flows(c) or dev(c)) else (c, "one") for c in pairs]
     for cfg in cases_by:
         if cfg == "History_pairs.cfg":
             continue
@@ -1473,10 +1496,13 @@ def run(ctx: core.Ctx):
     def replay_inst(_):
         return run_interpreter(seeds[1], [c["hist"] for c in inst], fork=True, instrument_=True, par=4, timeout=3000)
 
+    t1 = time.time()
     with ThreadPoolExecutor(max_workers=len(seeds) + 1) as ex:
         f_inst = ex.submit(replay_inst, None)
         seed_results = list(ex.map(replay_seed, seeds))
         inst_results = f_inst.result()
+    phases["replay"] = round(time.time() - t1, 1)
+    ctx.set("phase_s", phases)
 
     # ---- (5) verdicts
     nontriv = set()
@@ -1497,6 +1523,9 @@ def run(ctx: core.Ctx):
             op = rr["op"]
             model = c["res"][i] if c["res"] else None
             same = rr["r"] == ref[op]
+            if rr.get("flags", {}).get("not_idempotent"):
+                ctx.report({"history": hist[: i + 1], "position": i, "op": op, "hashseed": seed, "kind": "idempotence", "detail": rr["flags"]["not_idempotent"]},
+                           f"{op} after {hist[:i]}: repeated to_model_proto()/to_function_proto() calls differ: {rr['flags']['not_idempotent']}")
             if i > 0:
                 nontriv.add((tuple(hist[:i]), op))
             if not same:
@@ -1559,8 +1588,6 @@ def run(ctx: core.Ctx):
         "exception messages are not compared, only the exception type of refused operations",
         "the torch_lib registry's warn-once state and GraphBuilder._constant_cache (per builder) are not part of the process model",
     ]
-    if time.time() - t0 < 0:
-        pass
 
 
 def replay(ctx, path):
